@@ -1850,3 +1850,156 @@ def rule_lc_marks(ctx, m):
         ctx.check(bool(restores), 'R-DUAL', mod.path, 'LocalConcurrences._reset_wp_mask', 'reset undoes value marks',
                   'kbest_matches (non-compact) marks consumed cells by negating their values, but the non-compact reset only rewrites the mask: after a search, '
                   'restart=True / keep=False do not make the consumed cells available again, so the same call sequence on one object returns different matches', g.line)
+
+
+# ================================================================================================= C18: window mask of the non-compact matrix
+def rule_lc_window_mask(ctx, m):
+    """LocalConcurrences._reset_wp_mask (pure-Python, non-compact matrix): after the reset every cell inside the band of the affinity recurrence is unmasked,
+    whatever the mask held before (cells of earlier matches).  The routine is read as a sequence of events on the diagonals d = column - row of the matrix:
+    `np.tril_indices(.., k=K, ..)` selects d <= K, `np.triu_indices(.., k=K, ..)` selects d >= K; `wp[il] = ma.masked` / `wp.mask[il] = True` masks the selection,
+    `wp.mask[il] = False` unmasks it, `wp.mask = False` unmasks everything.  The K's are piecewise-linear terms over (rows, columns, window); the final state of
+    every in-band diagonal (band of the documented scheme: -(W-1) - max(0, l1-l2) <= d <= (W-1) + max(0, l2-l1)) is evaluated for all shapes and windows in a box;
+    a diagonal that ends masked, or keeps its earlier state, is reported with the witness."""
+    from .. import sym
+    from ..symexec import subst_expr
+    mod = m.py('dtaidistance.subsequence.localconcurrences')
+    f = mod.funcs.get('LocalConcurrences._reset_wp_mask')
+    if f is None:
+        raise AnalysisError('anchor vanished: LocalConcurrences._reset_wp_mask')
+    fn = 'LocalConcurrences._reset_wp_mask'
+    inst = 'localconcurrences.py:%s:window mask covers the band' % fn
+
+    # the arm taken for a window: the else-arm of `if self.window is None`
+    def window_test(c):
+        txt = fmt(c)
+        return 'window' in txt and ('is None' in txt or 'isnot' in txt or 'is not' in txt)
+    arm = None
+    for s in walk_stmts(f.body):
+        if s.k == 'if' and window_test(s.cond):
+            neg = 'isnot' in fmt(s.cond) or 'is not' in fmt(s.cond)
+            arm = s.then if neg else s.els
+            none_arm = s.els if neg else s.then
+            break
+    if arm is None:
+        ctx.undecided('R-BAND', inst, 'no `if self.window is None` split recognised')
+        return
+    ok_none = any(s.k == 'assign' and fmt(s.target).endswith('.mask') and s.value in (('bool', False),) for s in none_arm)
+    ctx.check(ok_none, 'R-BAND', mod.path, fn, 'mask cleared without a window',
+              'without a window every cell is inside the band: the reset must clear the whole mask (`wp.mask = False`)', f.line if hasattr(f, 'line') else None)
+
+    ROWS, COLS, WIN = sym.var('N'), sym.var('M'), sym.var('W')
+
+    def atom(x):
+        t = fmt(x)
+        if t.endswith('.shape[0]') or t in ('(len(self.series1) + 1)',):
+            return ROWS
+        if t.endswith('.shape[1]') or t in ('(len(self.series2) + 1)',):
+            return COLS
+        if t == 'self.window':
+            return WIN
+        return None
+
+    env = {}
+    events = []        # (kind, selector, K term, stmt)   kind in mask / unmask / all-unmask / all-mask; selector 'le' (tril) / 'ge' (triu)
+    sel = {}           # index variable -> (selector, K term)
+    for s in arm:
+        if s.k == 'if' and len(s.then) == 1 and len(s.els or ()) == 1 and s.then[0].k == 'assign' and s.els[0].k == 'assign' \
+                and s.then[0].target == s.els[0].target and s.then[0].target[0] == 'var':
+            # `v = a if c else b`, which the front end presents as a two-armed if
+            env[s.then[0].target[1]] = ('cond', subst_expr(s.cond, env), subst_expr(s.then[0].value, env), subst_expr(s.els[0].value, env))
+            sel.pop(s.then[0].target[1], None)
+            continue
+        if s.k != 'assign':
+            if s.k in ('expr', 'pass'):
+                continue
+            ctx.undecided('R-BAND', inst, 'statement kind `%s` in the window arm is not modelled' % s.k)
+            return
+        tgt, val = s.target, subst_expr(s.value, env)
+        if tgt[0] == 'tuple':
+            for k_, t_ in enumerate(tgt[1]):
+                if t_[0] == 'var':
+                    env[t_[1]] = val[1][k_] if val[0] == 'tuple' and len(val[1]) == len(tgt[1]) else ('idx', val, ('num', k_))
+            continue
+        if tgt[0] == 'var':
+            if val[0] == 'call' and dotted(val[1]).split('.')[-1] in ('tril_indices', 'triu_indices'):
+                kw = dict(val[3])
+                pos = list(val[2])
+                kexpr = kw.get('k', pos[1] if len(pos) > 1 else ('num', 0))
+                nexpr = kw.get('n', pos[0] if pos else None)
+                mexpr = kw.get('m', pos[2] if len(pos) > 2 else nexpr)
+                try:
+                    kt = sym.from_ir(kexpr, atom=atom)
+                    nt, mt = sym.from_ir(nexpr, atom=atom), sym.from_ir(mexpr, atom=atom)
+                except sym.Unsupported as e:
+                    ctx.undecided('R-BAND', inst, 'diagonal offset not piecewise linear: %s' % e)
+                    return
+                if nt != ROWS or mt != COLS:
+                    ctx.undecided('R-BAND', inst, 'index selection over a different shape: n=%s m=%s' % (fmt(nexpr), fmt(mexpr)))
+                    return
+                sel[tgt[1]] = ('le' if dotted(val[1]).endswith('tril_indices') else 'ge', kt)
+                env.pop(tgt[1], None)
+            else:
+                env[tgt[1]] = val
+                sel.pop(tgt[1], None)
+            continue
+        txt = fmt(tgt)
+        base = tgt
+        idxv = None
+        if tgt[0] == 'idx' and tgt[2][0] == 'var':
+            idxv, base = tgt[2][1], tgt[1]
+        btxt = fmt(base)
+        is_mask_attr = btxt.endswith('.mask')
+        vtxt = fmt(s.value)
+        if idxv is None:
+            if is_mask_attr and s.value in (('bool', False), ('bool', True)):
+                events.append(('unmask' if s.value == ('bool', False) else 'mask', 'all', None, s))
+                continue
+            ctx.undecided('R-BAND', inst, 'store `%s` in the window arm is not modelled' % txt[:60])
+            return
+        if idxv not in sel:
+            ctx.undecided('R-BAND', inst, 'store through `%s`, which is not a tril/triu selection' % idxv)
+            return
+        if is_mask_attr and s.value in (('bool', False), ('bool', True)):
+            events.append(('unmask' if s.value == ('bool', False) else 'mask',) + sel[idxv] + (s,))
+        elif vtxt.endswith('masked'):
+            events.append(('mask',) + sel[idxv] + (s,))
+        else:
+            continue       # a value store (e.g. -inf) does not change the mask
+    if not events:
+        ctx.undecided('R-BAND', inst, 'no mask event recognised in the window arm')
+        return
+    ats = set()
+    for e in events:
+        if e[2] is not None:
+            ats |= set(sym.atoms(e[2]))
+    if not ats <= {'N', 'M', 'W'}:
+        ctx.undecided('R-BAND', inst, 'diagonal offsets depend on %s' % sorted(ats - {'N', 'M', 'W'}))
+        return
+    witness = None
+    n = 0
+    for N in range(2, 9):
+        for M in range(2, 9):
+            for W in range(1, 9):
+                val = {'N': N, 'M': M, 'W': W}
+                l1, l2 = N - 1, M - 1
+                lo, hi = -(W - 1) - max(0, l1 - l2), (W - 1) + max(0, l2 - l1)
+                ks = [(e[0], e[1], None if e[2] is None else sym.evaluate(e[2], val)) for e in events]
+                for d in range(max(lo, -(N - 1) + 1), min(hi, M - 1 - 1) + 1):      # diagonals that hold a cell with row >= 1 and column >= 1
+                    n += 1
+                    st = 'before'           # whatever an earlier search left
+                    which = None
+                    for (kind, selr, K), e in zip(ks, events):
+                        if selr == 'all' or (selr == 'le' and d <= K) or (selr == 'ge' and d >= K):
+                            st, which = kind, e
+                    if st != 'unmask' and witness is None:
+                        witness = (N, M, W, d, st, which)
+    ctx.count('mask diagonals evaluated', n)
+    if witness is None:
+        ctx.held('R-BAND', inst, '%d mask events; %d in-band diagonals over shapes 2..8 x 2..8, windows 1..8 end unmasked' % (len(events), n))
+    else:
+        N, M, W, d, st, which = witness
+        ctx.violation('R-BAND', mod.path, fn, 'window mask covers the band',
+                      'with %d x %d cells and window %d the diagonal column - row = %d is inside the band of the recurrence but ends %s after the reset%s: '
+                      'a match that runs there is never returned' % (N, M, W, d, 'masked' if st == 'mask' else 'in the state the previous search left',
+                                                                     (' (`%s`)' % fmt(which[3].target)[:40]) if which else ''),
+                      which[3].line if which else None, facts={'witness': {'rows': N, 'cols': M, 'window': W, 'diagonal': d}})
